@@ -19,6 +19,7 @@ def run(prog, rep, tier):
     apply(rep, "W3", "every symbol-table entry exactly once, in order, numbered from zero (source evaluation of symbol_producer on abstract module tables)", r_elf.w3(prog, tier), 1)
     apply(rep, "W2b", "ELF-domain constants built from symbol fields go through the matching extraction macro", r_elf.w2b(prog), 5)
     apply(rep, "W2", "GELF_ST_* macro paired with its domain and the symbol's machine", r_elf.w2(prog), 6)
+    apply(rep, "W5", "codes below LOOS are generic across machines, codes LOOS..HIPROC (inclusive) stay in the machine's own domain (most_enclosing of every per-machine STT/STB domain interpreted)", r_elf.w5(prog), 4)
     import r_pure
     q = r_pure.q1(prog)
     apply(rep, "Q1", "operators and constant domains carry no mutable members (nothing is remembered from one symbol/file to the next)",
